@@ -493,7 +493,10 @@ where
     }
 
     fn pick_random_peer(&self) -> SocketAddr {
+        #[cfg(not(feature = "verif-hooks"))]
         let mut rng = rand::rng();
+        #[cfg(feature = "verif-hooks")]
+        let mut rng = crate::verif::rng();
         let mut peer_info = self.sampler.sample_info(&mut rng);
         while peer_info.id == self.epoch_info.own_id() {
             peer_info = self.sampler.sample_info(&mut rng);
